@@ -4,6 +4,7 @@ scheduler with kills, short I/O, cross-device temp directories and injected OS e
 against a shadow model (DESIGN.md §3)."""
 import errno
 import hashlib
+import os
 import io
 import pickle
 import pickletools
@@ -238,6 +239,10 @@ def gen_workload(rng, cfg, thorough):
             # itself, cache or no cache, which is not something C18 can promise anything about)
             ep['mid'] = [['rewrite', focus if rng.random() < 0.8 else rng.choice(SRC_KEYS), 'replace']
                          for _ in range(rng.choice([1, 1, 2]))]
+            if rng.random() < 0.3:
+                # ... and the scanner itself being upgraded while scanners of the old version run:
+                # they finish their stores after the new version has purged the cache
+                ep['mid'].insert(rng.randrange(len(ep['mid']) + 1), ['upgrade', 'mtime', [0]])
         epochs.append(ep)
     return epochs
 
@@ -435,6 +440,7 @@ class CacheSim(object):
         self.libfiles = list(LIBFILES)
         self.epoch_decisions = []
         self.eacces_on_unlink = False
+        self.learnt_entries = {}       # source key -> cache paths the code used for it, oldest first
         self.pending_mid = []
         self.version_log = {}          # key -> [(seq from which it is current, version), ...]
         self.world.env_hook = self._fire_mid
@@ -460,17 +466,25 @@ class CacheSim(object):
                 if prev.state != 'done':
                     self.midop_switches += 1
             self._last_slot = slot
+        if slot >= 0 and call == 'stat' and path == LIBDIR + '/' + self.libfiles[0]:
+            # the one file a mid-run upgrade touches: what this process saw of it decides which
+            # version hash it computes, i.e. which scanner version it takes itself to be
+            self.world.procs[slot].version = self.scanner_version
         if ino is None:
             return
         node = self.fs.inodes.get(ino)
         if node is None:
             return
+        # provenance: the scanner version of the process that writes (the version it saw when it
+        # looked at its own installation), not whatever is installed at the moment of the write
+        wsv = self.world.procs[slot].version if slot >= 0 else self.scanner_version
         if call == 'open' and res in ('creat', 'trunc'):
-            node.tag['sv'] = self.scanner_version
+            node.tag.pop('damaged', None)
+            node.tag['sv'] = wsv
             node.tag['writers'] = node.tag.get('writers', ()) + (slot,)
             node.tag['wseq'] = seq
         elif call in ('write', 'ftruncate', 'truncate'):
-            node.tag['sv'] = self.scanner_version
+            node.tag['sv'] = wsv
             node.tag['wseq'] = seq
         if call in ('write', 'ftruncate', 'truncate') or (call == 'open' and res in ('creat', 'trunc')):
             node.tag['wns'] = self.fs.now_ns          # when its data last changed (not its mtime)
@@ -512,12 +526,14 @@ class CacheSim(object):
             floor = prev_mtime
             # (entries under the absolute path, and under the relative spelling that scanners
             # started inside the directory use)
+            paths = list(self.learnt_entries.get(key, []))
             for spelled in (SOURCES[key], './' + SOURCES[key].rpartition('/')[2]):
                 name = hashlib.sha1(spelled.encode('utf-8')).hexdigest()
-                for d in self._candidate_cachedirs():
-                    entry = self.fs.lookup(d + '/' + name)
-                    if entry is not None and 'wns' in entry.tag:
-                        floor = max(floor, entry.tag['wns'])
+                paths.extend(d + '/' + name for d in self._candidate_cachedirs())
+            for path in paths:
+                entry = self.fs.lookup(path)
+                if entry is not None and 'wns' in entry.tag:
+                    floor = max(floor, entry.tag['wns'])
             t2 = min(self.fs.now_ns, floor + self._clock_rng.choice((1_000, 50_000, 3_000_000)))
             if t2 > floor:
                 node.mtime_ns = t2
@@ -547,7 +563,31 @@ class CacheSim(object):
         return out
 
     def entry_path(self, key):
+        """Where the code keeps the entry of a source: learnt from the code itself (the first cache
+        path, other than stamp and temporary files, that a process touched during an operation on
+        that source), so that no naming scheme is assumed; until one has been seen, the scheme of
+        the tree this harness was first written against."""
+        for path in reversed(self.learnt_entries.get(key, [])):
+            if self.fs.lookup(path) is not None:
+                return path
+        if self.learnt_entries.get(key):
+            return self.learnt_entries[key][-1]
         return self.cachedir + '/' + hashlib.sha1(SOURCES[key].encode('utf-8')).hexdigest()
+
+    def op_entry_path(self, p, rec, key):
+        """The entry path process p used for `key` in the operation rec (learnt from its own system
+        calls), or the last one learnt for that source."""
+        dirs = self._candidate_cachedirs()
+        for ev in self._events_of(rec):
+            if ev[2] == p.slot and ev[4] and ev[3] in ('open', 'stat', 'fstat', 'rename', 'unlink'):
+                d, _, name = ev[4].rpartition('/')
+                if d in dirs and name != STAMP and not name.startswith('g-ir-scanner-cache-'):
+                    known = self.learnt_entries.setdefault(key, [])
+                    if ev[4] in known:
+                        known.remove(ev[4])
+                    known.append(ev[4])
+                    return ev[4]
+        return self.entry_path(key)
 
     def apply_env(self, ev):
         fs = self.fs
@@ -632,6 +672,7 @@ class CacheSim(object):
                 if node is not None:
                     node.data[:] = b'' if kind == 'empty_stamp' else bytes(node.data[:7]) + b'???'
                     node.mtime_ns = fs.stamp()
+                    node.tag['damaged'] = True
                     done = 'ok'
             self.world.record(-1, 'ENV:' + kind, None, None, done)
         elif kind == 'stray_tmp':
@@ -668,6 +709,11 @@ class CacheSim(object):
                'begin_idx': len(self.world.log), 'snap': None}
         if op[0] in ('construct', 'newstore'):
             rec['snap'] = self._cachedir_snapshot()
+            # which scanner version wrote the stamp this construct is about to read
+            rec['stamp_sv'] = {}
+            for d in self._candidate_cachedirs():
+                st = self.fs.lookup(d + '/' + STAMP)
+                rec['stamp_sv'][d] = st.tag.get('sv') if st is not None and not st.tag.get('damaged') else None
         self.world.record(p.slot, 'OP>' + op[0], SOURCES.get(op[1]) if len(op) > 1 else None)
         self.ops.append(rec)
         return rec
@@ -718,7 +764,7 @@ class CacheSim(object):
                 # instead of raising" -- a load whose open or read of *its own cache entry* fails
                 # must answer "nothing", not die
                 if op[0] in ('load', 'parse_include') and last is not None and last[3] in ('open', 'read') \
-                        and last[4] == self.entry_path(op[1]):
+                        and last[4] == self.op_entry_path(p, rec, op[1]):
                     self.violate('O2', 'O2@%s:unreadable-entry-raised:%s:%s' % (op[0], last[3], errno.errorcode.get(exc.errno)), {
                         'op': op, 'slot': p.slot, 'epoch': rec['epoch'], 'exception': repr(exc), 'site': site,
                         'last_call': lastcall})
@@ -745,7 +791,8 @@ class CacheSim(object):
             allowed = self.versions_current_during(key, rec['begin_seq'], rec['end_seq'])
             wants = [self.version_digest[(key, k)] for k in allowed]
             evs = self._events_of(rec)
-            entry = self.entry_path(key)
+            entry = self.op_entry_path(p, rec, key)
+            rec['entry'] = entry
             opened = [ev for ev in evs if ev[2] == p.slot and ev[3] == 'open' and ev[4] == entry and ev[6] == 'ro']
             if value is None:
                 rec['result'] = 'none'
@@ -803,6 +850,12 @@ class CacheSim(object):
                 used = used[0] if used else None
                 now = self._cachedir_snapshot(used) if used else {}
                 left = []
+                if used and rec.get('stamp_sv', {}).get(used) == p.version:
+                    # the stamp it found was written by its own version: no purge is owed. Entries
+                    # that a scanner of another version, still running, stored after that purge
+                    # may lie around; what matters is that they are never served (reader side)
+                    used = None
+                    self.probe('construct_found_own_stamp')
                 for name, ino in (rec['snap'].get(used, {}) if used else {}).items():
                     if name == STAMP:
                         continue
@@ -879,7 +932,7 @@ class CacheSim(object):
             return
         ino = opened[0][5]
         node = self.fs.inodes[ino]
-        entry = self.entry_path(key)
+        entry = rec.get('entry') or self.entry_path(key)
         src = self.fs.lookup(SOURCES[key])
         if src is None:
             return
